@@ -10,6 +10,7 @@
 //! tools/check.py.
 
 mod cancel;
+mod sasl;
 mod codec;
 mod common;
 mod connlife;
@@ -85,6 +86,7 @@ fn main() {
         "reasm" => reasm::main(&opts),
         "ids" => ids::main(&opts),
         "cancel" => cancel::main(&opts),
+        "sasl" => sasl::main(&opts),
         "failprop" => failprop::main(&opts),
         "hostile" => hostile::main(&opts),
         "limits" => limits::main(&opts),
